@@ -175,15 +175,50 @@ func c13model(c *Ctx) {
 			return true
 		}
 		sig := f.Type().(*types.Signature)
-		if sig.Recv() != nil || sig.Params().Len() != 3 || sig.Results().Len() != 1 || c.P.DeclPkg(f) != c.P.Pkg("geom") {
+		if sig.Recv() != nil || sig.Results().Len() != 1 || c.P.DeclPkg(f) != c.P.Pkg("geom") || !isFloat64(sig.Results().At(0).Type()) {
 			return false
 		}
-		for i := 0; i < 3; i++ {
-			if !types.Identical(sig.Params().At(i).Type(), m.ptT) {
+		// three points in all: three Point parameters, or a Point and a value of two Point fields
+		// (a segment), in either order
+		n := 0
+		for i := 0; i < sig.Params().Len(); i++ {
+			t := sig.Params().At(i).Type()
+			if types.Identical(t, m.ptT) {
+				n++
+				continue
+			}
+			st, ok := t.Underlying().(*types.Struct)
+			if !ok || st.NumFields() != 2 || !types.Identical(st.Field(0).Type(), m.ptT) || !types.Identical(st.Field(1).Type(), m.ptT) {
 				return false
 			}
+			n += 2
 		}
-		return isFloat64(sig.Results().At(0).Type())
+		return n == 3
+	}
+	// distPoints: the deviating point and the two ends of the segment, from the arguments of a
+	// deviation measure in whichever of the accepted forms
+	distPoints := func(args []oval) (oval, oval, oval, bool) {
+		var single, pair []oval
+		for _, a := range args {
+			st, ok := a.(*oStruct)
+			if !ok || st == nil {
+				return nil, nil, nil, false
+			}
+			if _, isPt := st.fields["X"]; isPt {
+				single = append(single, st)
+				continue
+			}
+			for _, fn := range st.order {
+				pair = append(pair, st.fields[fn])
+			}
+		}
+		switch {
+		case len(single) == 3 && len(pair) == 0:
+			return single[0], single[1], single[2], true
+		case len(single) == 1 && len(pair) == 2:
+			return single[0], pair[0], pair[1], true
+		}
+		return nil, nil, nil, false
 	}
 	it.symbolic = true
 	distAtom := func(p poly) string {
@@ -274,8 +309,12 @@ func c13model(c *Ctx) {
 	}
 	it.stub = func(f *types.Func, recv oval, args []oval) ([]oval, bool) {
 		switch {
-		case isDist(f) && len(args) == 3:
-			k, a, b := idx(args[0]), idx(args[1]), idx(args[2])
+		case isDist(f):
+			pk, pa, pb, ok := distPoints(args)
+			if !ok {
+				return []oval{oTop{"deviation measure on " + showVal(args[0])}}, true
+			}
+			k, a, b := idx(pk), idx(pa), idx(pb)
 			if k < 0 || a < 0 || b < 0 {
 				return []oval{oTop{"distance between points that are not vertices of the input"}}, true
 			}
